@@ -35,9 +35,9 @@ func readTree(root string, ents []dent) fstest.MapFS {
 }
 
 func streamCli() {
-	n := 40
+	n := 70
 	if thorough() {
-		n = 600
+		n = 800
 	}
 	bin := os.Getenv("VERIF_GOPKI_BIN")
 	if bin == "" {
@@ -64,14 +64,30 @@ func streamCli() {
 		}
 		ne := 3
 		ents := make([]dent, ne)
-		for i := range ents {
+		// a forest in which an issuer may well sort after its subject (the directory is walked in index order)
+		perm := rng.Perm(ne)
+		for k, i := range perm {
 			ents[i].issuer = -1
-			if i > 0 {
-				ents[i].issuer = rng.Intn(i)
+			if k > 0 && rng.Intn(5) != 0 {
+				ents[i].issuer = perm[rng.Intn(k)]
 			}
 			ents[i].vstyle = rng.Intn(5)
 			ents[i].layout = rng.Intn(3)
 		}
+		// half of the histories run the tool in another time zone: the dates in the configurations are local midnights
+		env := os.Environ()
+		dirLoc = time.UTC
+		if h%2 == 1 {
+			if loc, err := time.LoadLocation("Europe/Berlin"); err == nil {
+				dirLoc = loc
+				env = append(env, "TZ=Europe/Berlin")
+			}
+		} else {
+			env = append(env, "TZ=UTC")
+		}
+		nuser := 0
+		forceAll := false
+		profVersion, profStrict, profExpired = 0, false, false
 		order = map[int]int{}
 		var ops, obs []string
 		prev := map[int]fileView{}
@@ -99,7 +115,11 @@ func streamCli() {
 				record(0, nil)
 				continue
 			}
-			switch r := rng.Intn(100); {
+			r := rng.Intn(100)
+			if forceAll {
+				r = 0
+			}
+			switch {
 			case r < 55:
 				// flags: mostly the defaults (-m -c), otherwise any of the 32 combinations
 				fm, fa, fe, fo, fc := true, false, false, false, true
@@ -107,7 +127,19 @@ func streamCli() {
 					fm, fa, fe, fo, fc = rng.Intn(2) == 1, rng.Intn(4) == 0, rng.Intn(2) == 1, rng.Intn(2) == 1, rng.Intn(2) == 1
 				}
 				ans := answers[rng.Intn(len(answers))]
-				args := []string{"sign"}
+				if forceAll {
+					// right after the user put an artifact of their own in place: regenerate everything and consent, so that the
+					// (often much longer) file is overwritten by a shorter one
+					fa, ans, forceAll = true, answers[0], false
+				}
+				args := []string{}
+				switch rng.Intn(4) { // logging flags do not change what is generated
+				case 0:
+					args = append(args, "-d")
+				case 1:
+					args = append(args, "-v")
+				}
+				args = append(args, "sign")
 				if rng.Intn(2) == 0 || !fm {
 					args = append(args, fmt.Sprintf("--generate-missing=%v", fm))
 				}
@@ -134,6 +166,7 @@ func streamCli() {
 				})
 				tick()
 				cmd := exec.Command(bin, args...)
+				cmd.Env = env
 				inCoq := "None"
 				if ans.in != nil {
 					cmd.Stdin = strings.NewReader(*ans.in)
@@ -187,6 +220,9 @@ func streamCli() {
 						continue
 					}
 					rel, _ := filepath.Rel(root, p)
+					if pr := artifactProblem(b); pr != "" && code == 1 {
+						fmt.Fprintf(out, "SELFFAIL cli-%d-%d step %d: the artifact %q written by the run holds %s\n", seed, h, s, rel, pr)
+					}
 					found := false
 					for j, e := range ents {
 						if e.present && e.pemPath(j) == rel {
@@ -219,9 +255,18 @@ func streamCli() {
 				ents[i].vis++
 				putcfg(i)
 				ops = append(ops, fmt.Sprintf("U (OpEditCfg %d %s)", i, ents[i].coq()))
-			case r < 87:
+			case r < 84:
 				putcfg(i)
 				ops = append(ops, fmt.Sprintf("U (OpTouchCfg %d)", i))
+			case r < 92: // an artifact of the user's own (sometimes with tens of kilobytes of text around the blocks)
+				tick()
+				nuser++
+				data, term := userArtifact(rng, nuser)
+				p := filepath.Join(root, ents[i].pemPath(i))
+				os.MkdirAll(filepath.Dir(p), 0755)
+				os.WriteFile(p, data, 0644)
+				ops = append(ops, fmt.Sprintf("U (OpReplaceUser %d %s)", i, term))
+				forceAll = rng.Intn(2) == 0
 			default:
 				tick()
 				os.Remove(filepath.Join(root, ents[i].pemPath(i)))
@@ -230,6 +275,7 @@ func streamCli() {
 			record(0, nil)
 		}
 		os.RemoveAll(root)
+		dirLoc = time.UTC
 		fmt.Fprintf(out, "CASE cli-%d-%d %d steps :: %s\n", seed, h, len(ops), strings.Join(ops, "; "))
 		fmt.Fprintf(out, "COQ ([%s], [%s])\n", strings.Join(ops, "; "), strings.Join(obs, "; "))
 	}
